@@ -414,6 +414,32 @@ fn run_norm(a: &[&str]) -> String {
     }
 }
 
+fn run_normx(a: &[&str]) -> String {
+    match a {
+        [k, b1, b2] => {
+            let (k, b1, b2) = match (nat(k), hexdec(b1), hexdec(b2)) {
+                (Some(k), Some(b1), Some(b2)) if k < 256 => (k as u8, b1, b2),
+                _ => return BAD.into(),
+            };
+            let raw = match guarded(|| LR::new_from_internals_near_raw(k, &b1, &b2)) {
+                Some(h) => h,
+                None => return PANIC.into(),
+            };
+            let text = format!("{}", raw);
+            let r1 = match N::try_from(raw.normalize()) { Ok(n) => format!("{}", n), Err(_) => "ERR".to_string() };
+            let r2 = match guarded(|| text.parse::<N>()) {
+                Some(Ok(n)) => format!("{}", n), Some(Err(_)) => "ERR".to_string(), None => PANIC.to_string() };
+            let r3 = match guarded(|| text.parse::<LN>()) {
+                Some(Ok(n)) => match N::try_from(n) { Ok(n) => format!("{}", n), Err(_) => "ERR".to_string() },
+                Some(Err(_)) => "ERR".to_string(),
+                None => PANIC.to_string(),
+            };
+            format!("r={},{},{}", r1, r2, r3)
+        }
+        _ => BAD.into(),
+    }
+}
+
 // ---------------------------------------------------------------------------------------------
 // dual
 // ---------------------------------------------------------------------------------------------
@@ -431,13 +457,17 @@ macro_rules! dual_impl {
             let c = text.parse::<$DUAL>().ok();
             let d = $DUAL::from(raw);
             let e = $DUAL::new_from_internals(block_size::from_log($k).unwrap(), $b1, $b2);
-            (a, b, c, d, e)
+            // a reused object that still holds a hash whose RLE blocks are completely filled
+            let dirty_raw = $RAW::new_from_internals_near_raw(30, &[63u8; 64], &[62u8; $RAW::MAX_BLOCK_HASH_SIZE_2]);
+            let mut f = $DUAL::from_raw_form(&dirty_raw);
+            f.init_from_raw_form(&raw);
+            (a, b, c, d, e, f)
         });
-        let (a, b, c, d, e) = match all {
-            Some((a, b, Some(c), d, e)) => (a, b, c, d, e),
+        let (a, b, c, d, e, f) = match all {
+            Some((a, b, Some(c), d, e, f)) => (a, b, c, d, e, f),
             _ => return PANIC.into(),
         };
-        let others = [b, c, d, e];
+        let others = [b, c, d, e, f];
         let same = others.iter().all(|x| *x == a && dual_rle(x) == dual_rle(&a)
             && x.as_normalized().full_eq(a.as_normalized()));
         let hw = others.iter().all(|x| hash_writes(x) == hash_writes(&a));
@@ -1291,6 +1321,7 @@ pub fn exec_line(line: &str) -> String {
         "fmt" => run_fmt(&toks[1..]),
         "fmt2" => run_fmt2(&toks[1..]),
         "norm" => run_norm(&toks[1..]),
+        "normx" => run_normx(&toks[1..]),
         "dual" => run_dual(&toks[1..]),
         "dual2" => run_dual2(&toks[1..]),
         "ord" => run_ord(&toks[1..]),
